@@ -42,6 +42,27 @@ func init() {
 		},
 	})
 	register(&Property{
+		ID: "C50",
+		Explanation: "Decides the usage discipline around displayed locations, not the URL rewriting itself: (location-taint) a forward taint analysis over the whole module (flow- and context-insensitive; through phis, conversions, concatenation, strings/fmt.Sprint*/url helpers, local variables, captured variables, struct fields, varargs, parameters of module functions and their results) starting at every load of global.Options.Repo, SecondaryRepoOptions.Repo/LegacyRepo and at the content of the repository file finds no tainted argument of fmt.Print*/Fprint*/Errorf, log.*, debug.Log, the error constructors of internal/errors and pkg/errors, a method of the internal/ui printers and terminals, and no tainted store into a JSON-tagged struct field; the only way out is location.StripPassword; (strip-registered) every backend factory registration is classified: a backend whose package takes a password out of its URL (Userinfo.Password / url.UserPassword) must register a strip function other than location.NoPassword (rest), location.StripPassword returns its input unchanged only when no factory knows the scheme and otherwise returns factory.StripPassword(s). Not decided: that rest.StripPassword removes the password from every URL url.Parse accepts, locations shown by backends from their parsed Config (after location.Parse), and text that the operating system or libraries echo.",
+		Assumptions: commonAssumptions,
+		Technique:   "static analysis: interprocedural forward taint propagation over SSA values, fields and parameters with a sanitiser and an enumerated sink set (go/ssa)",
+		AllConfigs:  true,
+		Run: func(c *eng.Ctx) {
+			ruleLocationTaint(c)
+			ruleStripRegistered(c)
+		},
+		Controls: []Control{
+			{Name: "init-prints-raw-location", File: "cmd/restic/cmd_init.go",
+				Old: "s.Config().ID[:10], location.StripPassword(gopts.Backends, gopts.Repo))", New: "s.Config().ID[:10], gopts.Repo)", Rule: "location-taint"},
+			{Name: "open-error-shows-raw-location", File: "internal/global/global.go",
+				Old: "		return nil, errors.Fatalf(\"unable to open repository at %v: %v\", location.StripPassword(gopts.Backends, s), err)", New: "		return nil, errors.Fatalf(\"unable to open repository at %v: %v\", s, err)", Rule: "location-taint"},
+			{Name: "init-json-raw-location", File: "cmd/restic/cmd_init.go",
+				Old: "			Repository:  location.StripPassword(gopts.Backends, gopts.Repo),", New: "			Repository:  gopts.Repo,", Rule: "location-taint"},
+			{Name: "rest-registers-identity-strip", File: "internal/backend/rest/rest.go",
+				Old: "	return location.NewHTTPBackendFactory(\"rest\", ParseConfig, StripPassword, Create, Open)", New: "	return location.NewHTTPBackendFactory(\"rest\", ParseConfig, location.NoPassword, Create, Open)", Rule: "strip-registered"},
+		},
+	})
+	register(&Property{
 		ID: "C51",
 		Explanation: "Decides the gate in front of the only code that replaces the binary: (verify-before-install) in DownloadLatestStableRelease the call of extractToFile is reachable only through GPGVerify's ok==true and no-error edges, findHash's success edge and the true edge of bytes.Equal; the buffer whose signature is verified is the buffer findHash reads; the checksum is looked up under the downloaded asset's own name; SHA-256 is computed over the very buffer extractToFile installs; bytes.Equal compares findHash's result with that digest; extractToFile has this single call site and file-system writes in package selfupdate occur only in it (and its platform helper); (signature-check) GPGVerify returns ok only on the success edge of CheckArmoredDetachedSignature, which gets the key ring read from the package variable `key` (never reassigned), the data argument as signed message and sig as signature; findHash returns a hash only for a line whose file-name column equals the requested name, hex-decoded from that line. Not decided: correctness of openpgp/sha256, TLS and the GitHub API, and what extractToFile leaves behind when it fails half-way.",
 		Assumptions: commonAssumptions,
